@@ -111,7 +111,7 @@ Fixpoint inner (rem t : nat) (alpha : T) (i : nat) (pat : Z) (vs : option T) (vl
     else (i, last)
   end.
 
-(* the local variables of _run_path that live across outer steps *)
+(* the locals of _run_path that live across outer steps *)
 Record St := {
   s_t : nat;                (* number of completed outer steps *)
   s_alpha : T;              (* alpha *)
